@@ -157,9 +157,10 @@ class SetArgs:
             "regex_anchored@C13": implies(given, seq_len(out) == seq_len(rx) and forall(range(seq_len(rx)), lambda j: sval(attr_of(at(out, j), "pattern")) == "^" + sval(at(rx, j)) + "$")),
             "no_regex_no_patterns@C13": implies(not given, seq_len(out) == 0),
             "preamble_trimmed@C19": implies(not is_none(preamble) and len(sval(preamble)) > 0 and not is_blank(sval(preamble)), ty_is(self.preamble, str) and sval(self.preamble) == ext("str.strip", sval(preamble))),
+            "preamble_ok@C19": is_none(self.preamble) or ty_is(self.preamble, str),
             "blank_preamble_dropped@C19": implies(is_none(preamble) or len(sval(preamble)) == 0 or is_blank(sval(preamble)), is_none(self.preamble)),
-            "generator_options@C16": implies(not truthy(code_generator_kwargs_raw), dict_len(kw) == 3) and kw["post_init_converters"] is attr_of(self, "strings_converters")
-            and kw["convert_unicode"] is box_bool(not disable_unicode_conversion) and kw["max_literals"] is attr_of(self, "max_literals"),
+            "generator_options@C16": implies(not truthy(code_generator_kwargs_raw), dict_len(kw) == 3 and kw["post_init_converters"] is attr_of(self, "strings_converters")
+                                             and kw["convert_unicode"] is box_bool(not disable_unicode_conversion) and kw["max_literals"] is attr_of(self, "max_literals")),
         }
 
 
@@ -192,11 +193,14 @@ class ParseArgs:
     """C17: argument handling never prints model code or touches the output file, whether it succeeds or fails."""
     modifies = ["*"]
 
+    def requires(self, args):
+        return {"default_registry_wf": registry_wf(registry)}
+
     def raises(self, args):
         return {"*": True}
 
     def ensures(self, args):
-        return {"no_output@C17": no_effects()}
+        return {"no_output@C17": no_effects(), "preamble_ok@C19": is_none(self.preamble) or ty_is(self.preamble, str)}
 
     def ensures_exc(self, args):
         return {"no_output_on_failure@C17": no_effects()}
@@ -210,6 +214,9 @@ class StructureFnCall:
     def raises(self, a0, a1):
         return {"*": True}
 
+    def ensures(self, a0, a1, result):
+        return {"pair": seq_len(result) == 2}
+
 
 @contract(CLI + ".run", props=["C16", "C17"], abstract=True)
 class Run:
@@ -217,6 +224,9 @@ class Run:
     C16: what is written with -o is exactly the text that would have been returned for printing (header + generated code)."""
     sorts = {"result": "str", "output": "str", "output_file": "any", "enable_datetime": "bool", "models_data": "dict"}
     modifies = ["*"]
+
+    def requires(self):
+        return {"preamble_ok": is_none(self.preamble) or ty_is(self.preamble, str)}
 
     def raises(self):
         return {"*": True}
@@ -242,6 +252,9 @@ def run_loop(_it, _seq):
 class Main:
     """C17: model code is printed only after run() returned normally; a failure anywhere propagates (non-zero exit) with no output."""
     modifies = ["*", "*effects"]
+
+    def requires(self):
+        return {"default_registry_wf": registry_wf(registry)}
 
     def raises(self):
         return {"*": True}
@@ -278,4 +291,10 @@ class StrSplit:
 
 @loop(CLI + ".parse_args", 1)
 def parse_args_loop(_it, _seq):
-    return {"nothing_written_yet": no_effects()}
+    return {"nothing_written_yet": no_effects(), "registry_wf": registry_wf(registry)}
+
+
+@contract(CLI + ".__init__", props=[], verify=False)
+class CliInit:
+    modifies = ["initialized", "models_data", "enable_datetime", "strings_converters", "max_literals", "merge_policy",
+                "structure_fn", "model_generator", "model_generator_kwargs", "argparser"]
